@@ -16,6 +16,8 @@
                                              init_loop (selection loop), after_pick
                     readStreamFeatures    -> read_children (+ add_adv: s.features)
      session.go     restart block         -> reset_stream (s.features, s.negotiated emptied)
+                    info reset, error exit -> renew_info / keep_addr (s.in.Info), fail_state
+     stream/stream.go FromStartElement    -> assign;  internal/stream Expect + address checks -> header_ok, fix_to
      starttls.go    StartTLS.Negotiate    -> starttls_negotiate
      conn.go        teeConn               -> the [istee] flag (a teeConn forwards
                                              every byte unchanged; what it copies
@@ -30,9 +32,10 @@
    the old xml.Decoder.  What a feature other than STARTTLS returns from
    Negotiate/Parse is an input (scripted outcomes); the order in which Go
    iterates the feature map is an input (choice list) whose legality the model
-   checks.  XML tokenisation, the address checks on stream headers (C12) and
-   TLS itself are not modelled: a header is "good" or "bad" by construction,
-   the TLS handshake is an oracle ([c_hs_ok]) that is told a server name.
+   checks.  XML tokenisation and TLS itself are not modelled: a stream header
+   is the record of its six attributes, each absent or present (addresses are
+   compared as canonical strings), the TLS handshake is an oracle ([c_hs_ok])
+   that is told a server name.
 
    The captured variable of the StartTLS feature value (the *tls.Config given
    to xmpp.StartTLS, nil = None) is explicit state [m_fv], threaded from one
@@ -106,14 +109,21 @@ Definition default_outcome := mkO 0%N false false.
 
 (* ------------------------------------------------------------------ peer items *)
 
-Inductive hclass := HGood | HBad.   (* a stream header that Expect + the address checks accept / reject *)
+(* the attributes of a <stream:stream> start tag, each absent or present with a value *)
+Record hattrs := mkH {
+  h_id : option bytes; h_ver : option bytes; h_lang : option bytes; h_xmlns : option bytes;
+  h_from : option bytes; h_to : option bytes }.
+
+(* stream.Info of the input stream (Session.In()): the empty string is the zero value *)
+Record info := mkI {
+  n_id : bytes; n_ver : bytes; n_lang : bytes; n_xmlns : bytes; n_from : bytes; n_to : bytes }.
 
 (* a child of <stream:features/>: an element (name, what Parse says about it:
    required, error) or character data *)
 Inductive fchild := FC (space local : bytes) (req perr : bool) | FCText.
 
 Inductive pbody :=
-| PHeader (h : hclass)
+| PHeader (h : hattrs)
 | PFeatures (cs : list fchild)
 | PStreamErr
 | PElem (space local : bytes)     (* an empty element that is none of the above *)
@@ -145,7 +155,9 @@ Inductive event :=
 Record config := mkCfg {
   c_feats : list feature;
   c_hs_ok : bool;               (* oracle: the TLS handshake succeeds *)
-  c_domain : bytes              (* domainpart of the session's local address *) }.
+  c_domain : bytes;             (* domainpart of the session's local address *)
+  c_loc : bytes;                (* location: the address of the server the session talks to *)
+  c_orig : bytes                (* origin: the session's own address (c_domain is its domainpart) *) }.
 
 (* negotiatorState: doRestart, !started *)
 Record nstate := mkNS { ns_restart : bool; ns_first : bool }.
@@ -164,46 +176,59 @@ Record mstate := mkM {
   m_choices : list bytes;       (* observed map-iteration choices (name spaces) *)
   m_fv : option bytes;          (* the variable captured by the StartTLS feature value: ServerName of its config, None = nil *)
   m_adv : list bytes;           (* s.features (keys): what Session.Feature reports as advertised for the current stream *)
+  m_info : info;                (* s.in.Info: what Session.In() reports *)
+  m_allowed : nat;              (* streamFeaturesList.allowed: cached features negotiable when the list was read *)
+  m_ready : bool;               (* negotiateFeatures' `ready`: a feature negotiated from this list reported Ready *)
   m_tr : list event             (* events so far, oldest first *) }.
 
 Definition emit (e : event) (m : mstate) : mstate :=
   mkM (m_bits m) (m_negd m) (m_cache m) (m_total m) (m_lreq m) (m_in m) (m_tlsin m) (m_tls m) (m_hs m)
-      (m_outs m) (m_choices m) (m_fv m) (m_adv m) (m_tr m ++ [e]).
+      (m_outs m) (m_choices m) (m_fv m) (m_adv m) (m_info m) (m_allowed m) (m_ready m) (m_tr m ++ [e]).
 Definition set_bits (b : N) (m : mstate) : mstate :=
   mkM b (m_negd m) (m_cache m) (m_total m) (m_lreq m) (m_in m) (m_tlsin m) (m_tls m) (m_hs m)
-      (m_outs m) (m_choices m) (m_fv m) (m_adv m) (m_tr m).
+      (m_outs m) (m_choices m) (m_fv m) (m_adv m) (m_info m) (m_allowed m) (m_ready m) (m_tr m).
 Definition set_negd (l : list bytes) (m : mstate) : mstate :=
   mkM (m_bits m) l (m_cache m) (m_total m) (m_lreq m) (m_in m) (m_tlsin m) (m_tls m) (m_hs m)
-      (m_outs m) (m_choices m) (m_fv m) (m_adv m) (m_tr m).
-Definition set_list (c : cache) (t : nat) (r : bool) (m : mstate) : mstate :=
+      (m_outs m) (m_choices m) (m_fv m) (m_adv m) (m_info m) (m_allowed m) (m_ready m) (m_tr m).
+(* a new streamFeaturesList; negotiateFeatures' `ready` starts out false *)
+Definition set_list (c : cache) (t : nat) (al : nat) (r : bool) (m : mstate) : mstate :=
   mkM (m_bits m) (m_negd m) c t r (m_in m) (m_tlsin m) (m_tls m) (m_hs m)
-      (m_outs m) (m_choices m) (m_fv m) (m_adv m) (m_tr m).
+      (m_outs m) (m_choices m) (m_fv m) (m_adv m) (m_info m) al false (m_tr m).
+Definition set_ready (b : bool) (m : mstate) : mstate :=
+  mkM (m_bits m) (m_negd m) (m_cache m) (m_total m) (m_lreq m) (m_in m) (m_tlsin m) (m_tls m) (m_hs m)
+      (m_outs m) (m_choices m) (m_fv m) (m_adv m) (m_info m) (m_allowed m) b (m_tr m).
 Definition set_in (i : list pitem) (m : mstate) : mstate :=
   mkM (m_bits m) (m_negd m) (m_cache m) (m_total m) (m_lreq m) i (m_tlsin m) (m_tls m) (m_hs m)
-      (m_outs m) (m_choices m) (m_fv m) (m_adv m) (m_tr m).
+      (m_outs m) (m_choices m) (m_fv m) (m_adv m) (m_info m) (m_allowed m) (m_ready m) (m_tr m).
 Definition set_outs (o : list outcome) (m : mstate) : mstate :=
   mkM (m_bits m) (m_negd m) (m_cache m) (m_total m) (m_lreq m) (m_in m) (m_tlsin m) (m_tls m) (m_hs m)
-      o (m_choices m) (m_fv m) (m_adv m) (m_tr m).
+      o (m_choices m) (m_fv m) (m_adv m) (m_info m) (m_allowed m) (m_ready m) (m_tr m).
 Definition set_choices (c : list bytes) (m : mstate) : mstate :=
   mkM (m_bits m) (m_negd m) (m_cache m) (m_total m) (m_lreq m) (m_in m) (m_tlsin m) (m_tls m) (m_hs m)
-      (m_outs m) c (m_fv m) (m_adv m) (m_tr m).
+      (m_outs m) c (m_fv m) (m_adv m) (m_info m) (m_allowed m) (m_ready m) (m_tr m).
 Definition set_adv (a : list bytes) (m : mstate) : mstate :=
   mkM (m_bits m) (m_negd m) (m_cache m) (m_total m) (m_lreq m) (m_in m) (m_tlsin m) (m_tls m) (m_hs m)
-      (m_outs m) (m_choices m) (m_fv m) a (m_tr m).
+      (m_outs m) (m_choices m) (m_fv m) a (m_info m) (m_allowed m) (m_ready m) (m_tr m).
+Definition set_fv (fv : option bytes) (m : mstate) : mstate :=
+  mkM (m_bits m) (m_negd m) (m_cache m) (m_total m) (m_lreq m) (m_in m) (m_tlsin m) (m_tls m) (m_hs m)
+      (m_outs m) (m_choices m) fv (m_adv m) (m_info m) (m_allowed m) (m_ready m) (m_tr m).
+Definition set_info (n : info) (m : mstate) : mstate :=
+  mkM (m_bits m) (m_negd m) (m_cache m) (m_total m) (m_lreq m) (m_in m) (m_tlsin m) (m_tls m) (m_hs m)
+      (m_outs m) (m_choices m) (m_fv m) (m_adv m) n (m_allowed m) (m_ready m) (m_tr m).
 (* readStreamFeatures: `s.features[tok.Name.Space] = nil` for every child element, supported or not *)
 Definition add_adv (sp : bytes) (m : mstate) : mstate := set_adv (sp :: m_adv m) m.
 (* negotiateSession, `if rw != nil`: s.features and s.negotiated are emptied (and the decoder renewed) *)
 Definition reset_stream (m : mstate) : mstate := set_adv [] (set_negd [] m).
 Definition set_hs (h : bool) (m : mstate) : mstate :=
   mkM (m_bits m) (m_negd m) (m_cache m) (m_total m) (m_lreq m) (m_in m) (m_tlsin m) (m_tls m) h
-      (m_outs m) (m_choices m) (m_fv m) (m_adv m) (m_tr m).
+      (m_outs m) (m_choices m) (m_fv m) (m_adv m) (m_info m) (m_allowed m) (m_ready m) (m_tr m).
 (* tls.Client around the connection: whatever clear text the peer had already
    sent is gone with the old decoder (session.go, rw != nil branch: the decoder
    is recreated on the new layer); from now on input comes from the TLS-layer
    script *)
 Definition switch_layer (m : mstate) : mstate :=
   mkM (m_bits m) (m_negd m) (m_cache m) (m_total m) (m_lreq m) (m_tlsin m) [] true true
-      (m_outs m) (m_choices m) (m_fv m) (m_adv m) (m_tr m).
+      (m_outs m) (m_choices m) (m_fv m) (m_adv m) (m_info m) (m_allowed m) (m_ready m) (m_tr m).
 
 Inductive eclass :=
 | EFeature    (* the error an abstract feature's callback returned *)
@@ -222,17 +247,48 @@ Definition read (rp : readpoint) (m : mstate) : mstate * option pitem :=
   | it :: rest => (emit (EIn rp (m_bits m) it) (set_in rest m), Some it)
   end.
 
+(* stream.Info.FromStartElement: only the attributes that are present are assigned *)
+Definition pick (a : option bytes) (old : bytes) : bytes := match a with Some v => v | None => old end.
+Definition assign (h : hattrs) (n : info) : info :=
+  mkI (pick (h_id h) (n_id n)) (pick (h_ver h) (n_ver n)) (pick (h_lang h) (n_lang n))
+      (pick (h_xmlns h) (n_xmlns n)) (pick (h_from h) (n_from n)) (pick (h_to h) (n_to n)).
+
+Definition str_version : bytes := str "1.0".
+Definition ns_client : bytes := str "jabber:client".
+Definition ns_server : bytes := str "jabber:server".
+Definition is_nil (b : bytes) : bool := match b with [] => true | _ => false end.
+
+(* internal/stream.Expect (version 1.0, content name space, non-empty id) and
+   the negotiator's address checks (from is the location; to is absent/empty or
+   the origin) *)
+Definition header_ok (c : config) (n : info) : bool :=
+  bytes_eqb (n_ver n) str_version &&
+  (bytes_eqb (n_xmlns n) ns_client || bytes_eqb (n_xmlns n) ns_server) &&
+  negb (is_nil (n_id n)) &&
+  bytes_eqb (n_from n) (c_loc c) &&
+  (is_nil (n_to n) || bytes_eqb (n_to n) (c_orig c)).
+
+(* `case s.in.Info.To.Equal(jid.JID{}): s.in.Info.To = origin` *)
+Definition fix_to (c : config) (n : info) : info :=
+  if is_nil (n_to n) then mkI (n_id n) (n_ver n) (n_lang n) (n_xmlns n) (n_from n) (c_orig c) else n.
+
 (* internal/stream.Expect followed by negotiator's address checks: leading
-   white space is skipped, a good header is accepted, anything else is an error *)
-Definition is_good_header (r : option pitem) : bool :=
+   white space is skipped; a stream header assigns its attributes to s.in.Info
+   and is then checked; anything else is an error *)
+Definition header_of (r : option pitem) : option hattrs :=
   match r with
-  | Some (mkItem _ (PHeader HGood)) => true
-  | _ => false
+  | Some (mkItem _ (PHeader h)) => Some h
+  | _ => None
   end.
 
-Definition expect_header (m : mstate) : mstate * res unit :=
+Definition expect_header (c : config) (m : mstate) : mstate * res unit :=
   let '(m1, r) := read RPHeader m in
-  (m1, if is_good_header r then Good tt else Bad EOther).
+  match header_of r with
+  | Some h =>
+      let n := assign h (m_info m1) in
+      if header_ok c n then (set_info (fix_to c n) m1, Good tt) else (set_info n m1, Bad EOther)
+  | None => (m1, Bad EOther)
+  end.
 
 (* internal/stream.Send.  The first write on a fresh TLS layer runs the handshake. *)
 Definition send_header (c : config) (m : mstate) : mstate * res unit :=
@@ -243,9 +299,18 @@ Definition send_header (c : config) (m : mstate) : mstate * res unit :=
 
 (* ------------------------------------------------------------------ readStreamFeatures *)
 
-(* the effect of one supported, successfully parsed child on the cache *)
-Definition cache_step (st : N) (f : feature) (req : bool) (ca : cache) : cache :=
-  if eligible f st then cache_put (req, f) ca else ca.
+(* the effect of one supported, successfully parsed child on the cache: it is
+   remembered whether or not its prerequisites hold right now (they are tested
+   again when a feature is selected) *)
+Definition cache_step (st : N) (f : feature) (req : bool) (ca : cache) : cache := cache_put (req, f) ca.
+
+(* streamFeaturesList.allowed: the supported children whose prerequisites hold
+   when the list is read *)
+Definition allowed_of (fs : list feature) (st : N) (cs : list fchild) : nat :=
+  length (filter (fun ch => match ch with
+                            | FC sp lo _ _ => match get_feature (sp, lo) fs with Some f => eligible f st | None => false end
+                            | FCText => false
+                            end) cs).
 
 Fixpoint read_children (fs : list feature) (st : N) (cs : list fchild) (m : mstate)
          (ca : cache) (tot : nat) (lr : bool) : mstate * res (cache * nat * bool) :=
@@ -303,18 +368,23 @@ Definition feature_err (f : feature) : eclass :=
   match f_kind f with KAbstract => EFeature | KStartTLS => EOther end.
 
 (* the part of the selection loop after a feature was picked:
-     mask, rw, err = Negotiate(...); if err == nil { s.state |= mask }
+     mask, rw, err = Negotiate(...)
+     if err == nil { ready = ready || mask&Ready == Ready; s.state |= mask &^ Ready }
      s.negotiated[space] = {}; if err != nil || rw != nil || req { break }
-   and, after the loop, `if !list.req && rw == nil { mask |= Ready }; return mask, rw, err`.
+   and, after the loop,
+     mask &^= Ready; if rw == nil && (ready || !list.req) { mask |= Ready }; return mask, rw, err.
    Returns Good None when the loop goes on. *)
 Definition after_pick (c : config) (m : mstate) (req : bool) (f : feature)
   : mstate * res (option (N * bool)) :=
   let '(m1, o) := negotiate_one c m f in
-  let m2 := if o_err o then m1 else set_bits (N.lor (m_bits m1) (o_mask o)) m1 in
+  let mask := N.ldiff (o_mask o) st_Ready in
+  let m2 := if o_err o then m1
+            else set_ready (m_ready m1 || has (o_mask o) st_Ready) (set_bits (N.lor (m_bits m1) mask) m1) in
   let m3 := set_negd (f_space f :: m_negd m2) m2 in
   if o_err o then (m3, Bad (feature_err f))
   else if o_restart o || req then
-    (m3, Good (Some (N.lor (o_mask o) (if m_lreq m3 || o_restart o then 0%N else st_Ready), o_restart o)))
+    (m3, Good (Some (N.lor mask (if negb (o_restart o) && (m_ready m3 || negb (m_lreq m3)) then st_Ready else 0%N),
+                     o_restart o)))
   else (m3, Good None).
 
 (* ------------------------------------------------------------------ selection *)
@@ -388,10 +458,10 @@ Definition features_of (r : option pitem) : option (list fchild) :=
   end.
 
 Definition normal_path (c : config) (m : mstate) : mstate * res (N * bool) :=
-  match m_total m, m_cache m with
+  match m_total m, m_allowed m with
   | O, _ => (m, Good (st_Ready, false))
-  | _, [] => (m, Bad EOther)      (* "features advertised out of order" *)
-  | _, ca => init_loop (S (length ca)) c m None
+  | _, O => (m, Bad EOther)      (* "features advertised out of order" *)
+  | _, _ => init_loop (S (length (m_cache m))) c m None
   end.
 
 (* after the list was read: the forced-STARTTLS rule, the `total == 0` and
@@ -412,7 +482,8 @@ Definition negotiate_features (c : config) (m : mstate) (first : bool) : mstate 
   match features_of r with
   | Some cs =>
       match read_children (c_feats c) (m_bits m1) cs m1 [] 0 false with
-      | (m2, Good (ca, tot, lr)) => after_read c (set_list ca tot lr m2) first
+      | (m2, Good (ca, tot, lr)) =>
+          after_read c (set_list ca tot (allowed_of (c_feats c) (m_bits m1) cs) lr m2) first
       | (m2, Bad e) => (m2, Bad e)
       | (m2, Stuck) => (m2, Stuck)
       end
@@ -427,7 +498,7 @@ Definition negotiator_body (c : config) (m : mstate) (ns : nstate) : mstate * re
   let '(m1, r1) :=
     if ns_restart ns then
       match send_header c m with
-      | (ma, Good _) => expect_header ma
+      | (ma, Good _) => expect_header c ma
       | other => other
       end
     else (m, Good tt) in
@@ -441,6 +512,25 @@ Definition negotiator_body (c : config) (m : mstate) (ns : nstate) : mstate * re
   | Bad e => (m1, Bad e)
   | Stuck => (m1, Stuck)
   end.
+
+(* `if rw != nil { s.in.Info = stream.Info{To: s.in.Info.To, From: s.in.Info.From} ... }`
+   at the top of the next iteration: it only happens when there is a next
+   iteration, i.e. when the Ready bit is not set *)
+Definition keep_addr (n : info) : info := mkI [] [] [] [] (n_from n) (n_to n).
+Definition renew_info (m : mstate) : mstate :=
+  if has (m_bits m) st_Ready then m else set_info (keep_addr (m_info m)) m.
+
+(* after the tee-wrapping call *)
+Definition tee_state (m : mstate) : mstate := renew_info (reset_stream m).
+
+(* after a call that returned mask, rw != nil = restart *)
+Definition next_state (restart : bool) (mask : N) (m1 : mstate) : mstate :=
+  let m2 := if restart then reset_stream m1 else m1 in
+  let m3 := set_bits (N.lor (m_bits m2) mask) m2 in
+  if restart then renew_info m3 else m3.
+
+(* `if err != nil { s.state &^= Ready; return s, err }` *)
+Definition fail_state (m : mstate) : mstate := set_bits (N.ldiff (m_bits m) st_Ready) m.
 
 Inductive rclass := ROk | RErr (e : eclass) | RFuel | RStuck.
 Record result := mkR { r_class : rclass; r_bits : N; r_state : mstate }.
@@ -460,26 +550,28 @@ Fixpoint session_loop (fuel : nat) (tee : bool) (c : config) (m : mstate) (data 
   | S k =>
       if has (m_bits m) st_Ready then mkR ROk (m_bits m) m
       else if tee && negb istee then
-        session_loop k tee c (reset_stream m) (Some (ns_of data)) true      (* s.Conn() is a teeConn from now on *)
+        session_loop k tee c (tee_state m) (Some (ns_of data)) true         (* s.Conn() is a teeConn from now on *)
       else
         match negotiator_body c m (ns_of data) with
         | (m1, Good (mask, restart, ns1)) =>
             (* a feature that restarts the stream returns a connection that is not a teeConn *)
-            let m2 := if restart then reset_stream m1 else m1 in
-            session_loop k tee c (set_bits (N.lor (m_bits m2) mask) m2) (Some ns1) (if restart then false else istee)
-        | (m1, Bad e) => mkR (RErr e) (m_bits m1) m1
+            session_loop k tee c (next_state restart mask m1) (Some ns1) (if restart then false else istee)
+        | (m1, Bad e) => mkR (RErr e) (m_bits (fail_state m1)) (fail_state m1)
         | (m1, Stuck) => mkR RStuck (m_bits m1) m1
         end
   end.
 
-Definition init_state (fv : option bytes) (bits : N) (clear tls : list pitem) (outs : list outcome) (choices : list bytes) : mstate :=
-  mkM bits [] [] 0 false clear tls false false outs choices fv [] [].
+(* negotiateSession: `s.in.Info.To = origin; s.in.Info.From = location` *)
+Definition init_info (c : config) : info := mkI [] [] [] [] (c_loc c) (c_orig c).
+
+Definition init_state (c : config) (fv : option bytes) (bits : N) (clear tls : list pitem) (outs : list outcome) (choices : list bytes) : mstate :=
+  mkM bits [] [] 0 false clear tls false false outs choices fv [] (init_info c) 0 false [].
 
 Definition fuel_for (clear tls : list pitem) : nat := 2 * (length clear + length tls) + 4.
 
 Definition run (tee : bool) (c : config) (fv : option bytes) (bits : N) (clear tls : list pitem)
            (outs : list outcome) (choices : list bytes) : result :=
-  session_loop (fuel_for clear tls) tee c (init_state fv bits clear tls outs choices) None false.
+  session_loop (fuel_for clear tls) tee c (init_state c fv bits clear tls outs choices) None false.
 
 Definition trace (r : result) : list event := m_tr (r_state r).
 
@@ -519,6 +611,10 @@ Definition child_spaces (cs : list fchild) : list bytes :=
   flat_map (fun ch => match ch with FC sp _ _ _ => [sp] | FCText => [] end) cs.
 Definition adv_spaces (its : list pitem) : list bytes :=
   flat_map (fun it => match i_body it with PFeatures cs => child_spaces cs | _ => [] end) its.
+
+(* the stream headers among some items *)
+Definition headers_of (its : list pitem) : list hattrs :=
+  flat_map (fun it => match i_body it with PHeader h => [h] | _ => [] end) its.
 
 (* the state bits the code had whenever it looked at input or ran a callback *)
 Definition bits_seen (tr : list event) : list N :=
@@ -590,6 +686,63 @@ Fixpoint run_sessions (fv : option bytes) (ss : list sess) : list result :=
       r :: run_sessions (m_fv (r_state r)) rest
   end.
 
+(* ------------------------------------------------------------------ one feature value, sessions that overlap *)
+
+(* One iteration of negotiateSession's loop (one call of the negotiator) as a
+   step of a session; [session_loop] is its iteration (C02/Inter.v). *)
+Record lstate := mkL { l_m : mstate; l_data : option nstate; l_istee : bool }.
+Inductive progress := Running (l : lstate) | Done (r : result).
+
+Definition loop_step (tee : bool) (c : config) (l : lstate) : progress :=
+  let m := l_m l in
+  if has (m_bits m) st_Ready then Done (mkR ROk (m_bits m) m)
+  else if tee && negb (l_istee l) then Running (mkL (tee_state m) (Some (ns_of (l_data l))) true)
+  else
+    match negotiator_body c m (ns_of (l_data l)) with
+    | (m1, Good (mask, restart, ns1)) =>
+        Running (mkL (next_state restart mask m1) (Some ns1) (if restart then false else l_istee l))
+    | (m1, Bad e) => Done (mkR (RErr e) (m_bits (fail_state m1)) (fail_state m1))
+    | (m1, Stuck) => Done (mkR RStuck (m_bits m1) m1)
+    end.
+
+(* a session sharing the feature value with others *)
+Record isess := mkIS { is_tee : bool; is_cfg : config; is_prog : progress }.
+
+Definition pstate (p : progress) : mstate :=
+  match p with Running l => l_m l | Done r => r_state r end.
+
+(* The variable captured by the feature value is global: a session's step runs
+   on the value the variable has NOW (whatever the other sessions have done to
+   it meanwhile) and leaves behind what it made of it. *)
+Definition step_sess (fv : option bytes) (s : isess) : option bytes * isess :=
+  match is_prog s with
+  | Done _ => (fv, s)
+  | Running l =>
+      let p := loop_step (is_tee s) (is_cfg s) (mkL (set_fv fv (l_m l)) (l_data l) (l_istee l)) in
+      (m_fv (pstate p), mkIS (is_tee s) (is_cfg s) p)
+  end.
+
+Fixpoint step_nth (i : nat) (fv : option bytes) (ss : list isess) : option bytes * list isess :=
+  match ss with
+  | [] => (fv, [])
+  | s :: rest =>
+      match i with
+      | O => let '(fv', s') := step_sess fv s in (fv', s' :: rest)
+      | S j => let '(fv', rest') := step_nth j fv rest in (fv', s :: rest')
+      end
+  end.
+
+(* a schedule: which session makes its next step, one after the other *)
+Fixpoint sched_run (sched : list nat) (fv : option bytes) (ss : list isess) : option bytes * list isess :=
+  match sched with
+  | [] => (fv, ss)
+  | i :: rest => let '(fv', ss') := step_nth i fv ss in sched_run rest fv' ss'
+  end.
+
+Definition start_sess (fv : option bytes) (s : sess) : isess :=
+  mkIS (s_tee s) (s_cfg s)
+       (Running (mkL (init_state (s_cfg s) fv (s_bits s) (s_in s) (s_tls s) (s_outs s) (s_choices s)) None false)).
+
 (* ------------------------------------------------------------------ correspondence record *)
 
 Definition outcome_eqb (a b : outcome) : bool :=
@@ -608,6 +761,10 @@ Definition witem_eqb (a b : witem) : bool :=
   | WElem s l, WElem s' l' => bytes_eqb s s' && bytes_eqb l l'
   | _, _ => false
   end.
+
+Definition info_eqb (a b : info) : bool :=
+  bytes_eqb (n_id a) (n_id b) && bytes_eqb (n_ver a) (n_ver b) && bytes_eqb (n_lang a) (n_lang b) &&
+  bytes_eqb (n_xmlns a) (n_xmlns b) && bytes_eqb (n_from a) (n_from b) && bytes_eqb (n_to a) (n_to b).
 
 (* what the instrumented features log *)
 Inductive cb := CParse (n : name) | CNeg (n : name) (st : N) (o : outcome).
@@ -638,7 +795,8 @@ Record c2case := mkC2 {
   y_hs : list bool;            (* outcome of each handshake *)
   y_tlsread : nat;             (* TLS-layer script items the peer got to send *)
   q_univ : list bytes;         (* name spaces for which Session.Feature was asked after NewSession returned *)
-  y_feats : list bytes }.      (* ... those it reported as advertised *)
+  y_feats : list bytes;        (* ... those it reported as advertised *)
+  y_info : info }.             (* Session.In(): id, version, xml:lang, xmlns, from, to (compared on established sessions) *)
 
 Definition c2_run (k : c2case) : result :=
   run (q_tee k) (q_cfg k) (q_fv k) (q_bits k) (q_in k) (q_tls k) (q_outs k) (q_choices k).
@@ -658,8 +816,14 @@ Definition c2_ok (k : c2case) : bool :=
   list_eqb cb_eqb (callbacks tr) (y_cb k) &&
   list_eqb bytes_eqb (server_names tr) (y_sni k) &&
   list_eqb Bool.eqb (handshakes tr) (y_hs k) &&
-  Nat.eqb (length (ins_of (after_switch tr))) (y_tlsread k) &&
-  forallb (fun ns => Bool.eqb (mem ns (m_adv (r_state r))) (mem ns (y_feats k))) (q_univ k).
+  (let got := ins_of (after_switch tr) in
+   Nat.eqb (length got) (y_tlsread k) ||
+   (* the peer sends the item after a stream header along with it; when the
+      session refuses the header that item was sent but not consumed *)
+   (negb (y_ok k) && Nat.eqb (S (length got)) (y_tlsread k) &&
+    match rev got with mkItem _ (PHeader _) :: _ => true | _ => false end)) &&
+  forallb (fun ns => Bool.eqb (mem ns (m_adv (r_state r))) (mem ns (y_feats k))) (q_univ k) &&
+  (negb (y_ok k) || info_eqb (m_info (r_state r)) (y_info k)).
 
 Fixpoint failing {A} (ok : A -> bool) (i : nat) (l : list A) : list nat :=
   match l with
